@@ -136,6 +136,31 @@ func (d *Datastore) toCacheReadPath(ctx context.Context, p *sdcpb.Path) ([]strin
 	return result, nil
 }
 
+// getDataReadOpts returns the cache read options for the given store. The cache resolves owner and priority
+// of intended store entries only for exact paths, so to also serve the entries below a requested path all
+// priorities are read and filtered by ownerIsRequested().
+func getDataReadOpts(req *sdcpb.GetDataRequest, store cachepb.Store) *cache.Opts {
+	opts := &cache.Opts{
+		Store:    store,
+		Owner:    req.GetDatastore().GetOwner(),
+		Priority: req.GetDatastore().GetPriority(),
+	}
+	if store == cachepb.Store_INTENDED && opts.Owner != "" && opts.Priority != 0 {
+		opts.Owner = ""
+		opts.Priority = 0
+		opts.PriorityCount = math.MaxInt32
+	}
+	return opts
+}
+
+// ownerIsRequested returns true if the update belongs to the owner and priority the request asks for.
+func ownerIsRequested(req *sdcpb.GetDataRequest, store cachepb.Store, upd *cache.Update) bool {
+	if store != cachepb.Store_INTENDED || req.GetDatastore().GetOwner() == "" || req.GetDatastore().GetPriority() == 0 {
+		return true
+	}
+	return upd.Owner() == req.GetDatastore().GetOwner() && upd.Priority() == req.GetDatastore().GetPriority()
+}
+
 // pathIsRequested returns true if the given path is located at or below one of the requested paths.
 // Keys that are not given in a requested path match every value.
 func pathIsRequested(requested []*sdcpb.Path, p *sdcpb.Path) bool {
@@ -163,11 +188,7 @@ NEXT:
 func (d *Datastore) handleGetDataUpdatesSTRING(ctx context.Context, name string, req *sdcpb.GetDataRequest, paths [][]string, out chan *sdcpb.GetDataResponse) error {
 NEXT_STORE:
 	for _, store := range getStores(req) {
-		in := d.cacheClient.ReadCh(ctx, name, &cache.Opts{
-			Store:    store,
-			Owner:    req.GetDatastore().GetOwner(),
-			Priority: req.GetDatastore().GetPriority(),
-		}, paths, 0)
+		in := d.cacheClient.ReadCh(ctx, name, getDataReadOpts(req, store), paths, 0)
 
 		for {
 			select {
@@ -195,7 +216,7 @@ NEXT_STORE:
 				}
 				// the cache matches the read paths as plain prefixes, make sure
 				// the entry is really located at or below one of the requested paths
-				if !pathIsRequested(req.GetPath(), scp) {
+				if !pathIsRequested(req.GetPath(), scp) || !ownerIsRequested(req, store, upd) {
 					continue
 				}
 				tv, err := upd.Value()
@@ -236,11 +257,7 @@ func (d *Datastore) handleGetDataUpdatesJSON(ctx context.Context, name string, r
 	flagsExisting := tree.NewUpdateInsertFlags()
 
 	for _, store := range getStores(req) {
-		in := d.cacheClient.ReadCh(ctx, name, &cache.Opts{
-			Store:    store,
-			Owner:    req.GetDatastore().GetOwner(),
-			Priority: req.GetDatastore().GetPriority(),
-		}, paths, 0)
+		in := d.cacheClient.ReadCh(ctx, name, getDataReadOpts(req, store), paths, 0)
 	OUTER:
 		for {
 			select {
@@ -269,7 +286,7 @@ func (d *Datastore) handleGetDataUpdatesJSON(ctx context.Context, name string, r
 				}
 				// the cache matches the read paths as plain prefixes, make sure
 				// the entry is really located at or below one of the requested paths
-				if !pathIsRequested(req.GetPath(), scp) {
+				if !pathIsRequested(req.GetPath(), scp) || !ownerIsRequested(req, store, upd) {
 					continue
 				}
 				root.AddCacheUpdateRecursive(ctx, upd, flagsExisting)
@@ -320,11 +337,7 @@ func (d *Datastore) handleGetDataUpdatesPROTO(ctx context.Context, name string, 
 	converter := utils.NewConverter(d.schemaClient)
 NEXT_STORE:
 	for _, store := range getStores(req) {
-		in := d.cacheClient.ReadCh(ctx, name, &cache.Opts{
-			Store:    store,
-			Owner:    req.GetDatastore().GetOwner(),
-			Priority: req.GetDatastore().GetPriority(),
-		}, paths, 0)
+		in := d.cacheClient.ReadCh(ctx, name, getDataReadOpts(req, store), paths, 0)
 		for {
 			select {
 			case <-ctx.Done():
@@ -352,7 +365,7 @@ NEXT_STORE:
 				}
 				// the cache matches the read paths as plain prefixes, make sure
 				// the entry is really located at or below one of the requested paths
-				if !pathIsRequested(req.GetPath(), scp) {
+				if !pathIsRequested(req.GetPath(), scp) || !ownerIsRequested(req, store, upd) {
 					continue
 				}
 				tv, err := upd.Value()
